@@ -270,7 +270,7 @@ def extract_item(ex: Extract, cache: Dict[str, Source]):
     return src, item, text, start
 
 
-def assemble(sc: Sidecar, mutate=None, canary: Optional[str] = None) -> Assembled:
+def assemble(sc: Sidecar, mutate=None, canary: Optional[str] = None, plain_only: bool = False) -> Assembled:
     """mutate: optional function (extract_path, rewritten_text) -> rewritten_text, used by the mutant
     self-test; canary: extract path that gets `ensures false` appended to its sig splice."""
     b = _Builder()
@@ -362,6 +362,38 @@ def assemble(sc: Sidecar, mutate=None, canary: Optional[str] = None) -> Assemble
 
         # ---- splices -> insertions (offset, text, block-name, sidecar line)
         ins = []
+        if plain_only:
+            # native rendering only (witness search after an undecided verifier run): no splices, no anchors
+            b.add(rewritten + '\n\n', lambda k, exf=ex.file, fl=first_line, exp=ex.path: LineOrigin('src', exf, fl, fn=exp))
+            # same-impl helper methods the function calls and the sidecar does not know (e.g. introduced by a
+            # refactoring) are pulled in verbatim, transitively - for the NATIVE rendering only
+            pp = parse_path(ex.path)
+            if is_fn and len(pp) >= 2 and pp[-2][0] == 'impl':
+                known = {parse_path(x.path)[-1][1] for x in sc.parts if isinstance(x, Extract)}
+                todo, seen_h = [rewritten], set()
+                while todo:
+                    body = todo.pop()
+                    for hm in re.finditer(r'(?:Self::|self\.)([a-z_]\w*)\s*\(', body):
+                        hn = hm.group(1)
+                        if hn in known or hn in seen_h:
+                            continue
+                        seen_h.add(hn)
+                        try:
+                            hit = src.find(pp[:-1] + [('fn', hn)])
+                        except RsxError:
+                            continue
+                        htext = src.text[hit.start:hit.end]
+                        hed = []
+                        for r in ex.rules:
+                            if r in R.RULES:
+                                hed += R.RULES[r](htext)
+                        hrew, _ = R.apply_edits(htext, hed)
+                        plain_parts[-1] = plain_parts[-1] + hrew + '\n\n'
+                        functions.append({'item': ' :: '.join('%s %s' % x for x in pp[:-1]) + ' :: fn ' + hn + ' (auto-extracted helper, native rendering only)',
+                                          'file': ex.file, 'lines': [src.line_of(hit.start), src.line_of(hit.end)],
+                                          'sha256': hashlib.sha256(htext.encode()).hexdigest()})
+                        todo.append(hrew)
+            continue
         if is_fn:
             an = fn_anatomy(rewritten)
             an_orig = fn_anatomy(text)
